@@ -466,6 +466,14 @@ class Interp(ExprMixin, CallMixin):
                 self.assume(a, True, fr)
         if isinstance(cond, Sym) and cond.op == 'cmp':
             op, a, b = cond.args
+            # i < len(X) in any spelling: index i of X exists (i a symbolic offset; constants are handled below)
+            sym_idx = None
+            if isinstance(b, Sym) and b.op == 'len' and not isinstance(a, int) and ((value and op == '<') or (not value and op == '>=')):
+                sym_idx = (a, b.args[0])
+            elif isinstance(a, Sym) and a.op == 'len' and not isinstance(b, int) and ((value and op == '>') or (not value and op == '<=')):
+                sym_idx = (b, a.args[0])
+            if sym_idx is not None:
+                fr.nonempty.add('#index %s of %s' % (_show(sym_idx[0]), _show(sym_idx[1])))
             if isinstance(a, Sym) and a.op == 'len' and isinstance(b, int):
                 if (value and op in ('>', '>=') and b >= (0 if op == '>' else 1)) or (not value and op in ('<', '==') and b <= 1 and (op != '==' or b == 0)):
                     fr.nonempty.add(_show(a.args[0]))
